@@ -505,7 +505,9 @@ def fx_widthcheck(fx):
     c1, c2 = _ctx(), _ctx()
     n1 = narrow.packed_value_checked(c1, fx, "widthfx::ok_build", r"::store_bits_static$")
     n2 = narrow.packed_value_checked(c2, fx, "widthfx::bad_build", r"::store_bits_static$")
-    return n1 == 2 and n2 == 2 and not c1.violations and len(c2.violations) == 1
+    c3 = _ctx()
+    n3 = narrow.packed_value_checked(c3, fx, "widthfx::ok_build_helper", r"::store_bits_static$")
+    return n1 == 2 and n2 == 2 and n3 == 1 and not c1.violations and len(c2.violations) == 1 and not c3.violations
 
 
 def fx_record(fx):
